@@ -111,6 +111,10 @@ func NewConsumerGroup(parent, fanOutPath string, q FanOutQueue) (ConsumerGroup, 
 		// if queue ack > consume group ack, need reset use queue ack
 		if ackSeq < ackOfQueue {
 			ackSeq = ackOfQueue
+			// messages <= ack of queue maybe removed by gc, cannot consume them again
+			if consumedSeq < ackSeq {
+				consumedSeq = ackSeq
+			}
 		}
 	}
 	// persist metadata
